@@ -16,7 +16,7 @@ RULE = (
     "shared_pinn_outputs given as slices or (possibly negative) ints, scalar vs (1,) time for ODE, params given as Params or as the bare "
     "network parameters when no transform needs eq_params; (b) SPINNs: d 1..3, r 1..4, m 1..3 outputs, batch 1..3 per "
     "axis, statio / nonstatio; (c) HYPERPINNs with 1..3 hyper-parameters of shapes (), (1,), (2,), default or custom "
-    "hyper architecture; the parameters handed to every wrapper are, in 4 cases out of 5, a perturbation of the ones it "
+    "hyper architecture, input transform none / affine / periodic, optional shared outputs; the parameters handed to every wrapper are, in 4 cases out of 5, a perturbation of the ones it "
     "was created with (the wrapper must evaluate the parameters it is GIVEN). Oracle: independent numpy forward pass from the weight/bias leaves (W x + b, activation table), "
     "then output_transform(inputs, net(input_transform(inputs, params)), params)[output_slice] with a trailing "
     "component axis; shared-output networks = slices of one common output; SPINN = sum_r prod_d f_d(x_d) on the tensor "
@@ -316,16 +316,30 @@ def run_hyper(case):
     eq_type, dx = c["eq_type"], c["dim_x"]
     din = {"ODE": 1, "statio_PDE": dx, "nonstatio_PDE": 1 + dx}[eq_type]
     labels = ["hyperpinn", eq_type, f"hp{len(c['hyper'])}", "custom-hyper" if c["hyper_widths"] is not None else "default-hyper"]
-    eqx_list = _eqx_list(din, c["widths"], c["acts"], c["m"])
+    tin = c.get("tin", "none")
+    net_in = din + (1 if tin == "periodic" else 0)
+    if tin != "none":
+        labels.append(f"in-{tin}")
+    eqx_list = _eqx_list(net_in, c["widths"], c["acts"], c["m"])
     eqp_np = {k: np.asarray(v, dtype=np.float64) for k, v in c["eq_params"].items()}
     eqp = {k: jnp.asarray(v, dtype=float) for k, v in c["eq_params"].items()}
     hsize = int(sum(eqp_np[k].size for k in c["hyper"]))
     kw = {}
     if c["hyper_widths"] is not None:
         kw["eqx_list_hyper"] = _eqx_list(hsize, c["hyper_widths"], c["hyper_acts"], 1)
+    if c.get("shared") is not None:
+        kw["shared_pinn_outputs"] = tuple((s_ if isinstance(s_, int) else jnp.s_[s_[0]:s_[1]]) for s_ in c["shared"])
+        labels.append("shared")
     u = jinns.utils.create_HYPERPINN(jax.random.PRNGKey(c["key"]), eqx_list, eq_type, list(c["hyper"]), hsize,
                                      dx if eq_type != "ODE" else 0,
+                                     input_transform=None if tin == "none" else IN_T[tin],
                                      output_transform=None if c["tout"] == "none" else OUT_T[c["tout"]], **kw)
+    nets = u if isinstance(u, list) else [u]
+    u = nets[0]
+    for other in nets[1:]:
+        la, lb = jax.tree_util.tree_leaves(u.init_params()), jax.tree_util.tree_leaves(other.init_params())
+        if len(la) != len(lb) or not all(np.array_equal(np.asarray(a), np.asarray(b)) for a, b in zip(la, lb)):
+            return fail("shared-output-networks-have-different-parameters", {"wrapper": "hyperpinn"}, labels=labels)
     hp = _perturb(u.init_params(), c.get("pert", 0))
     if c.get("pert"):
         labels.append("perturbed-params")
@@ -351,19 +365,27 @@ def run_hyper(case):
     # leaf order of an _MLP: for each Linear layer weight then bias
     W = [(chunks[2 * j], chunks[2 * j + 1]) for j in range(len(chunks) // 2)]
     z = np.asarray(c["z"], dtype=np.float64)[:din]
-    raw = np_mlp(W, list(c["acts"][: len(W)]), z)
-    raw_sq = raw[0] if raw.shape == (1,) else raw
     neqp = {"theta": eqp_np.get("theta", np.asarray(1.0)), "beta": eqp_np.get("beta", np.asarray([0.0]))}
-    want = np.atleast_1d(np_out(c["tout"], z, raw_sq, neqp))
-    if eq_type == "ODE":
-        got = u(jnp.asarray(z[0:1]), params)
-    elif eq_type == "statio_PDE":
-        got = u(jnp.asarray(z), params)
-    else:
-        got = u(jnp.asarray(z[0:1]), jnp.asarray(z[1:]), params)
-    got = np.asarray(got, dtype=np.float64)
-    if got.shape != want.shape or not np.allclose(got, want, rtol=1e-9, atol=1e-10):
-        return fail("hyperpinn-output-value", {"got": got.tolist(), "want": want.tolist(), "hyper": c["hyper"]}, labels=labels)
+    raw = np_mlp(W, list(c["acts"][: len(W)]), np_in(tin, z, neqp))
+    raw_sq = raw[0] if raw.shape == (1,) else raw
+    full = np.atleast_1d(np_out(c["tout"], z, raw_sq, neqp))
+    for k, net in enumerate(nets):
+        if c.get("shared") is None:
+            want = full
+        else:
+            s_ = c["shared"][k]
+            want = np.atleast_1d(full[s_]) if isinstance(s_, int) else full[s_[0]:s_[1]]
+        if eq_type == "ODE":
+            got = net(jnp.asarray(z[0:1]), params)
+        elif eq_type == "statio_PDE":
+            got = net(jnp.asarray(z), params)
+        else:
+            got = net(jnp.asarray(z[0:1]), jnp.asarray(z[1:]), params)
+        got = np.asarray(got, dtype=np.float64)
+        if got.shape != want.shape or not np.allclose(got, want, rtol=1e-9, atol=1e-10):
+            return fail("hyperpinn-output-value", {"got": got.tolist(), "want": want.tolist(), "hyper": c["hyper"], "net": k,
+                                                   "tin": tin, "shared": c.get("shared")}, labels=labels)
+    want = full
     return ok(nontrivial=len(c["hyper"]) >= 2 and float(np.max(np.abs(want))) > 1e-9, labels=labels)
 
 
@@ -384,7 +406,16 @@ def strat_hyper():
         custom = draw(st.booleans())
         hw = [draw(st.integers(1, 4)) for _ in range(draw(st.integers(0, 1)))] if custom else None
         ha = ([draw(st.sampled_from(["tanh", "sin"])) for _ in range(len(hw))] + ["identity"]) if custom else None
-        return {"eq_type": eq_type, "dim_x": draw(st.integers(1, 2)), "widths": widths, "acts": acts, "m": draw(st.integers(1, 2)),
+        m = draw(st.integers(1, 3))
+        shared = None
+        if m >= 2 and draw(st.booleans()):
+            shared = []
+            for _ in range(draw(st.integers(1, 2))):
+                lo = draw(st.integers(0, m - 1))
+                hi = draw(st.integers(lo + 1, m))
+                shared.append((lo - m if draw(st.booleans()) else lo) if (hi - lo == 1 and draw(st.booleans())) else [lo, hi])
+        return {"eq_type": eq_type, "dim_x": draw(st.integers(1, 2)), "widths": widths, "acts": acts, "m": m,
+                "tin": draw(st.sampled_from(["none", "none", "affine", "periodic"])), "shared": shared,
                 "eq_params": eq_params, "hyper": hyper, "hyper_widths": hw, "hyper_acts": ha,
                 "tout": draw(st.sampled_from(["none", "scale"])), "key": draw(st.integers(0, 2**31 - 1)),
                 "z": [draw(q16(-2, 2)) for _ in range(3)], "pert": draw(st.sampled_from([0, 1, -1, 2, 3]))}
